@@ -112,7 +112,7 @@ impl Prop for C09 {
         }
     }
     fn rule(&self) -> String {
-        "generated: every catalogue block plus sources/sinks (VectorSource, ConstantSource, SignalSource*, NullSink, VectorSink) under the C08 drip schedules (incl. stingy drain phases), optionally with the downstream ends dropped mid-run and with wait probing on. Per-call oracle on every work() call: (a) no over-consume/over-commit refusal; (b) every open stream of the block has exactly two handles after return; (c) a call without stream activity must not report a wait on a harness-owned stream that already satisfies the request - and a call that did move data and then reports such a wait must be followed by a call that makes progress -, and after the harness provides exactly what was asked on that stream alone the next call must make progress or ask for something else; (d) no 6 consecutive no-activity 'Again' answers with nothing changing; (e) once all inputs have ended and are drained the block returns EOF, or waits on an ended stream, or reports eof(). Non-trivial: a call with output full, or input and output both short, or the downstream dropped mid-run; distinct = hash of the case.".into()
+        "generated: every catalogue block plus sources/sinks (VectorSource, ConstantSource, SignalSource*, NullSink, VectorSink) under the C08 drip schedules (incl. stingy drain phases), optionally with the downstream ends dropped mid-run and with wait probing on. Per-call oracle on every work() call: (a) no over-consume/over-commit refusal; (b) every open stream of the block has exactly two handles after return; (c) a call without stream activity must not report a wait on a harness-owned stream that already satisfies the request - and a call that did move data and then reports such a wait must be followed by a call that makes progress -, and after the harness provides exactly what was asked on that stream alone the next call must make progress or ask for something else; (d) no 6 consecutive no-activity 'Again' answers with nothing changing; (e) once all inputs have ended and are drained the block returns EOF, or waits on an ended stream, or reports eof(); (f) conversely, after a verdict on which a runner retires the block - a wait on an ended input that holds less than what is asked for - no later call may produce output (in 30% of the cases the input writers leave as soon as everything is fed, while the block is still clogged). Non-trivial: a call with output full, or input and output both short, or the downstream dropped mid-run; distinct = hash of the case.".into()
     }
     fn assumptions(&self) -> Vec<String> {
         vec![
